@@ -93,6 +93,7 @@ package election
 //@ func (*Election).ProcessRoot
 //@   requires elinv(el) && len(el.validators.values) >= 1
 //@   modifies el.votes[*], el.decidedRoots[*], gObs
+//@   ensures  [res] result0 != nil ==> result1 == nil && result0.Frame == el.frameToDecide
 //@   ensures  [old_root] old(newRoot.Slot.Frame <= el.frameToDecide) ==> forall(k voteID, has(el.votes, k) == old(has(el.votes, k)) && el.votes[k] == old(el.votes[k]))
 //@   ensures  [others] forall(k voteID, k.fromRoot != newRoot ==> has(el.votes, k) == old(has(el.votes, k)) && el.votes[k] == old(el.votes[k]))
 //@   ensures  [round1] old(newRoot.Slot.Frame == el.frameToDecide + 1) ==> forall(v idx.ValidatorID, has(el.votes, vid(newRoot, v)) && !old(has(el.votes, vid(newRoot, v))) ==> !el.votes[vid(newRoot, v)].decided && el.votes[vid(newRoot, v)].yes == seenV(el, newRoot.ID, el.getFrameRoots(newRoot.Slot.Frame - 1), len(el.getFrameRoots(newRoot.Slot.Frame - 1)), v))
